@@ -35,6 +35,14 @@ pub fn gen_workload(sub: u64) -> Workload {
     let mut rng = Rng::new(sub);
     let max_files = if rng.chance(1, 3) { 24 } else { 9 };
     let mut corpus = gen_corpus(&mut rng, max_files, true);
+    if rng.chance(1, 15) {
+        // hundreds of tiny files: every worker searches and prints many files in a row
+        let extra = 100 + rng.below(250);
+        for i in 0..extra {
+            let c = if rng.chance(1, 5) { format!("foo in tiny file {i}\n").into_bytes() } else { b"nothing here\n".to_vec() };
+            corpus.files.push((format!("m{}/t{i}.txt", i % 7), c));
+        }
+    }
     // Sometimes: files named explicitly next to the traversed directory, and
     // binary files (a match, later a NUL) among the traversed ones. Explicit
     // files are searched with a different binary-detection mode than traversed
